@@ -34,6 +34,17 @@ def plan(tier):
         if not q or scope in ("own shared", "own"):
             p.append((S.T2(params={"pool_scope": scope, "max_tries": 2}, O=S.PF).variant(f"/scope={tag},mt=2"), 0 if q else 1, 0.5))
     p.append((S.T2("cluster1.net6 cluster1.net7 cluster2.net6", params={"pool_scope": "own shared"}, O=S.PF).variant("/clusters,scope=own+shared"), 0 if q else 1, 1))
+    # tests overrunning their timeout (test_timeout=1 => 10 back-off periods; durations of 15 and 25 periods): the waiting worker's documented
+    # recovery (re-entering an occupied test) must not derail the traversal, whatever the retry settings
+    for mt, mct in ((None, None), (None, 1), (2, None), (2, 1), (2, 2), (3, 1)):
+        pr = {"test_timeout": 1}
+        if mt:
+            pr["max_tries"] = mt
+        if mct:
+            pr["max_concurrent_tries"] = mct
+        p.append((S.T1(shared=S.VM1_CHAIN, params=pr, D=(1.0, 15.0, 25.0), O=S.PF).variant(f"/overrun,leaf-only,mt={mt},mct={mct}"), 1 if q else 2, 0.5))
+        if not q or mct:
+            p.append((S.T1(shared=S.VM1_CHAIN[:2], params=pr, D=(1.0, 15.0), O=S.PF).variant(f"/overrun,setup+leaf,mt={mt},mct={mct}"), 1 if q else 2, 0.5))
     # persistent failure of one test or of the creation step
     for pat, tag in ((r"\.customize\.", "customize"), (r"\.on_customize\.", "on_customize"), (r"unattended_install", "install"),
                      (r"stateless\.noop", "creation-pre-step"), (r"tutorial1", "tutorial1")):
